@@ -64,14 +64,21 @@
       requests: there is no [PUnevaluable] outcome and no [request_evaluable] hypothesis any more.
       Only [C03_async_resolvers_same_data] keeps [dirs_evaluable] as a hypothesis (C02's bridge
       theorem is stated under the full [doc_ok]).
-    - Outside the composition: the serialiser itself (encoding/json; [json_finite] is the condition under
-      which it accepts a number), stack depth of the Go runtime.  For these the glue theorems of
-      round 1 (…_partial below) and the hostile stream remain the evidence. *)
+    - (round 6) The round-1 glue theorems are restated on the composed stages ([C03_glue_is_composed],
+      [C03_execute_total], [C03_execute_data_or_errors], [C03_parse_errors_alone], [C03_subscribe_total]);
+      graphql.Subscribe with one Execute per event of the source stream is [C03_subscribe_pipeline_total];
+      the hypothesis on positions is a bound on the length of the text ([text_short]: fewer than
+      2^24 - 1 bytes; [C03_short_text_positions_small]).
+    - Outside the composition: API.ServeGraphQL, the source event stream of a subscription (the
+      application's), the serialiser itself (encoding/json; [json_finite] is the condition under
+      which it accepts a number), stack depth of the Go runtime.  For these the glue theorems over
+      ARBITRARY observed stage verdicts (the two statements that keep _partial, at the end) and the
+      hostile stream remain the evidence. *)
 From Coq Require Import List NArith.
 From ApiFu Require Import Base.Sexp.
 From ApiFu Require Syn.Ast Syn.ParserModel Syn.FrontEnd Vld.Ast Vld.ValidatorModel Vld.ProofsCommon Val.Values ExeA.ArgData ExeA.ArgArgs ExeA.ArgModel ExeA.ArgSpec ExeA.ArgHyps.
 From ApiFu Require Vld.MemoEquiv Vld.ProofsSubscription.
-From ApiFu Require Import Pipe.PipelineModel Pipe.PipelineProofs Pipe.Convert Pipe.Compose Pipe.SchemaAgree Pipe.PositionsProofs Pipe.FieldPositions Pipe.ComposeProofs Pipe.CondsProofs Pipe.TypingProofs Pipe.CostCompose Pipe.CostComposeProofs Pipe.AcyclicProofs Pipe.InvariantProofs Pipe.SetPositions Pipe.MergeBridge Pipe.InvariantBridge Pipe.SubscribeCompose Pipe.SubscribeProofs Pipe.AsyncProofs.
+From ApiFu Require Import Pipe.PipelineModel Pipe.PipelineProofs Pipe.Convert Pipe.Compose Pipe.SchemaAgree Pipe.PositionsProofs Pipe.FieldPositions Pipe.ComposeProofs Pipe.CondsProofs Pipe.TypingProofs Pipe.CostCompose Pipe.CostComposeProofs Pipe.AcyclicProofs Pipe.InvariantProofs Pipe.SetPositions Pipe.MergeBridge Pipe.InvariantBridge Pipe.SubscribeCompose Pipe.SubscribeProofs Pipe.AsyncProofs Pipe.TextBound Pipe.Corollaries.
 From ApiFu Require Fut.Plan Fut.ExecAsync Fut.AsyncRun Fut.FutSpec Fut.FutProofs Fut.BridgeC01.
 Import ListNotations.
 
@@ -256,7 +263,7 @@ Proof. exact parsed_set_positions_distinct. Qed.
     - the step from CollectFields of the executor (type conditions evaluated against [ot],
       @skip/@include, visited fragments) to the validator's addFieldSelections (everything, once):
       what the former collects the latter files, with the parent type and position of the set it
-      is written in (Pipe/CollectEntries.v: C04_collect_complete strengthened from keys to entries);
+      is written in (Vld/ProofsCollectEntries.v, written for this bridge and adopted by C04: C04_collect_complete strengthened from keys to entries);
     - two nodes under one response key whose parent types both have [ot] as a possible type
       [may_overlap]: C04_merge_ok_unfold gives the same field name and the merge-checked pair of
       sub-selection sets;
@@ -285,12 +292,29 @@ Proof. exact invariant_from_doc_ok. Qed.
 
 (** ... and every request whose text keeps positions below line 2^24 / column 2^32
     ([text_positions_small]) gets a response: no broken contract is left *)
-Theorem C03_pipeline_response : forall pi VS F ES bs opname raw W,
+Theorem C03_pipeline_response_small_positions : forall pi VS F ES bs opname raw W,
   Vld.ProofsCommon.order_ok pi ->
   schema_accepted ES = true -> cost_schema_accepted ES = true -> schemas_agree VS ES = true ->
   es_wf ES = true -> vschema_wf VS = true -> text_positions_small bs ->
   is_response (pipeline_order pi VS F ES bs opname raw W) = true.
 Proof. exact pipeline_response. Qed.
+
+(** the hypothesis on the positions is a bound on the LENGTH of the text (round 6): every token of a
+    text of n bytes starts on a line and in a column of at most n + 1 (the line bound is C07's
+    [inside_text]; the column bound is proved in Pipe/TextBound.v by the same route: column +
+    bytes left <= n + 1 in every state the scanner reaches), and selection positions are token
+    positions (C06).  [text_short bs]: fewer than 2^24 - 1 bytes. *)
+Theorem C03_short_text_positions_small : forall bs, text_short bs -> text_positions_small bs.
+Proof. exact short_text_positions_small. Qed.
+
+(** EVERY request whose text is shorter than 2^24 - 1 bytes (16 MiB) gets a response: syntax errors,
+    validation errors, or data and execution errors — for every operation name, all raw variable
+    values, every resolver-outcome world and every map order *)
+Theorem C03_pipeline_response : forall pi, Vld.ProofsCommon.order_ok pi -> forall VS F ES bs opname raw W,
+  schema_accepted ES = true -> cost_schema_accepted ES = true -> schemas_agree VS ES = true ->
+  es_wf ES = true -> vschema_wf VS = true -> text_short bs ->
+  is_response (pipeline_order pi VS F ES bs opname raw W) = true.
+Proof. exact pipeline_response_short. Qed.
 
 (** ** the cost rule inside the composition.
     [parse_validate_cost pi VS F ES bs opname raw r max] (Pipe/CostCompose.v) is
@@ -354,27 +378,77 @@ Theorem C03_async_resolvers_same_data : forall pi VS F ES bs opname raw W d o vv
             Fut.FutSpec.conforms root (Fut.ExecAsync.r_data r) (Fut.ExecAsync.r_errors r).
 Proof. exact async_pipeline_total. Qed.
 
-(** ** the glue of graphql.go over observed stage verdicts (round 1; still what covers Subscribe,
-    the cost rule, argument coercion and everything else outside the composed model) *)
-Theorem C03_execute_total_partial : forall p v e,
-  no_crash p -> no_crash v -> no_crash e -> exists r, execute p v e = Resp r.
-Proof. exact execute_total. Qed.
+(** ** graphql.go's glue over the COMPOSED stages (round 6).
+    The round-1 theorems spoke about graphql.Execute / graphql.Subscribe as functions of observed
+    stage verdicts, with "no stage crashed" and the executor's contract as premises.  With
+    [parse_verdict], [validate_verdict], [exec_verdict], [subscribe_verdict] — the verdicts computed
+    by the composed stage models from the bytes (Pipe/Corollaries.v) — the glue model IS the composed
+    model ([C03_glue_is_composed]) and the premises are theorems. *)
+Theorem C03_glue_is_composed : forall pi VS F ES bs opname raw W,
+  execute (parse_verdict bs) (validate_verdict pi VS F bs) (exec_verdict pi VS F ES bs opname raw W)
+  = glue_of (pipeline_order pi VS F ES bs opname raw W).
+Proof. exact glue_is_composed. Qed.
 
-Theorem C03_execute_data_or_errors_partial : forall p v e r,
-  exec_contract e -> execute p v e = Resp r -> data_or_errors r = true.
-Proof. exact execute_data_or_errors. Qed.
+Theorem C03_execute_total : forall pi, Vld.ProofsCommon.order_ok pi -> forall VS F ES bs opname raw W,
+  schema_accepted ES = true -> cost_schema_accepted ES = true -> schemas_agree VS ES = true ->
+  es_wf ES = true -> vschema_wf VS = true -> text_short bs ->
+  exists r, execute (parse_verdict bs) (validate_verdict pi VS F bs) (exec_verdict pi VS F ES bs opname raw W) = Resp r.
+Proof. exact execute_total_composed. Qed.
 
-Theorem C03_subscribe_total_partial : forall p v s,
-  no_crash p -> no_crash v -> no_crash s -> exists r, subscribe p v s = Resp r.
-Proof. exact subscribe_total. Qed.
+Theorem C03_execute_data_or_errors : forall pi, Vld.ProofsCommon.order_ok pi -> forall VS F ES bs opname raw W r,
+  schema_accepted ES = true ->
+  execute (parse_verdict bs) (validate_verdict pi VS F bs) (exec_verdict pi VS F ES bs opname raw W) = Resp r ->
+  data_or_errors r = true.
+Proof. exact execute_data_or_errors_composed. Qed.
 
-Theorem C03_subscribe_data_or_errors_partial : forall p v s r,
-  subscribe p v s = Resp r -> data_or_errors r = true.
-Proof. exact subscribe_data_or_errors. Qed.
+(** syntax errors are returned alone, whatever the schemas, the operation name, the variables and
+    the resolvers (no hypothesis) *)
+Theorem C03_parse_errors_alone : forall pi VS F ES bs opname raw W tree e es,
+  Syn.FrontEnd.parse_document_bytes bs = Syn.ParserModel.Out tree (e :: es) ->
+  pipeline_order pi VS F ES bs opname raw W = PSyntax e es /\
+  execute (parse_verdict bs) (validate_verdict pi VS F bs) (exec_verdict pi VS F ES bs opname raw W)
+  = Resp {| has_data := false; data_null := true; nerrors := S (length es) |}.
+Proof. exact parse_errors_alone_composed. Qed.
 
-Theorem C03_parse_errors_alone : forall n v e,
-  execute (Returned (S n)) v e = Resp {| has_data := false; data_null := true; nerrors := S n |}.
-Proof. exact parse_errors_alone. Qed.
+(** ** graphql.Subscribe with the per-event execution (round 6).
+    [subscribe_pipeline pi VS F ES bs opname raw W events]: graphql.Subscribe on the bytes
+    ([subscribe_order]); when it hands out the source, one graphql.Execute per event of the source
+    stream on the same request with the event as root value (executor.ExecuteRequest of a
+    subscription operation = executeSubscriptionEvent: query mode on the subscription root type).
+    For EVERY list of events: Subscribe refuses with syntax errors / validation errors / one error,
+    or every event gets a response that has data or errors and serialisable data. *)
+Theorem C03_subscribe_pipeline_total : forall pi, Vld.ProofsCommon.order_ok pi -> forall VS F ES bs opname raw W events,
+  schema_accepted ES = true -> cost_schema_accepted ES = true -> schemas_agree VS ES = true ->
+  es_wf ES = true -> vschema_wf VS = true -> text_short bs ->
+  match subscribe_pipeline pi VS F ES bs opname raw W events with
+  | SPRefused (SubSyntax _ _) | SPRefused (SubInvalid _ _) | SPRefused (SubError _) => True
+  | SPRefused _ => False
+  | SPStream _ rs => length rs = length events /\ forallb event_ok rs = true
+  end.
+Proof. exact subscribe_pipeline_total. Qed.
+
+(** graphql.Subscribe's own answer, through the glue: a response, with data (the source) or errors *)
+Theorem C03_subscribe_total : forall pi, Vld.ProofsCommon.order_ok pi -> forall VS F ES bs opname raw W,
+  schema_accepted ES = true -> cost_schema_accepted ES = true -> schemas_agree VS ES = true ->
+  exists r, subscribe (parse_verdict bs) (validate_verdict pi VS F bs) (subscribe_verdict pi VS F ES bs opname raw W) = Resp r /\
+            data_or_errors r = true.
+Proof. exact subscribe_total_composed. Qed.
+
+(** ** what genuinely stays outside the composition (and keeps [_partial]): requests whose stages are
+    only OBSERVED, not modelled — API.ServeGraphQL (the HTTP layer in front of the same stages) and
+    the hostile schema's value-dependent scalars; and the source event stream of a subscription,
+    which is the application's.  For these the check applies the glue model to the verdicts of the
+    separately called stages; the glue theorems for ARBITRARY verdicts (premises: no stage crashed,
+    the executor's contract) are what covers them. *)
+Theorem C03_observed_stages_total_partial :
+  (forall p v e, no_crash p -> no_crash v -> no_crash e -> exists r, execute p v e = Resp r) /\
+  (forall p v s, no_crash p -> no_crash v -> no_crash s -> exists r, subscribe p v s = Resp r).
+Proof. exact observed_stages_total. Qed.
+
+Theorem C03_observed_stages_data_or_errors_partial :
+  (forall p v e r, exec_contract e -> execute p v e = Resp r -> data_or_errors r = true) /\
+  (forall p v s r, subscribe p v s = Resp r -> data_or_errors r = true).
+Proof. exact observed_stages_data_or_errors. Qed.
 
 Print Assumptions C03_front_never_panics.
 Print Assumptions C03_front_cases.
@@ -400,8 +474,13 @@ Print Assumptions C03_pipeline_response.
 Print Assumptions C03_validate_with_cost_never_crashes.
 Print Assumptions C03_subscribe_never_crashes.
 Print Assumptions C03_async_resolvers_same_data.
-Print Assumptions C03_execute_total_partial.
-Print Assumptions C03_execute_data_or_errors_partial.
-Print Assumptions C03_subscribe_total_partial.
-Print Assumptions C03_subscribe_data_or_errors_partial.
+Print Assumptions C03_pipeline_response_small_positions.
+Print Assumptions C03_short_text_positions_small.
+Print Assumptions C03_glue_is_composed.
+Print Assumptions C03_execute_total.
+Print Assumptions C03_execute_data_or_errors.
 Print Assumptions C03_parse_errors_alone.
+Print Assumptions C03_subscribe_pipeline_total.
+Print Assumptions C03_subscribe_total.
+Print Assumptions C03_observed_stages_total_partial.
+Print Assumptions C03_observed_stages_data_or_errors_partial.
